@@ -153,7 +153,15 @@ def build(repo, trace):
         utable[ma.group(1)] = ma.group(2)
     if set(utable) != set(un_names):
         raise ExtractError('SsaTape::new: unary table does not cover UnaryOpcode')
-    if norm(ub[:mtab.start()]) != norm('let lhs = match mapping[lhs] { Slot::Reg(r) => r, Slot::Immediate(..) => { panic!() } };') or norm(ub[t1 + 1:]) != norm('; op(i, lhs)'):
+    # shape of the arm, whatever the locals are called and in whichever order the two slot arms stand:
+    #   let <a> = match mapping[lhs] { Slot::Reg(<r>) => <r>, Slot::Immediate(..) => { panic!() } }; let op = match op { table }; op(i, <a>)
+    mh = re.match(r'^let(\w+)=matchmapping\[lhs\]\{(.*)\};$', norm(ub[:mtab.start()]))
+    ok = False
+    if mh:
+        inner, n1 = re.subn(r'Slot::Reg\((\w+)\)=>\1,?', '', mh.group(2))
+        inner, n2 = re.subn(r'Slot::Immediate\(\.\.\)=>\{panic!\(\)\},?', '', inner)
+        ok = n1 == 1 and n2 == 1 and inner == '' and norm(ub[t1 + 1:]) == ';op(i,%s)' % mh.group(1)
+    if not ok:
         raise ExtractError('SsaTape::new: Unary arm changed: R-table1 not applicable')
     trace.fire('R-table1', len(utable))
     uarms = '\n'.join('                        UnaryOpcode::%s => SsaOp::%s(i, lhs),' % (o, utable[o]) for o in un_names)
@@ -169,7 +177,7 @@ def build(repo, trace):
     trace.fire('R-tryinto', n)
     block = re.sub(r'unreachable!\([^)]*\)', 'unreachable!()', block)
     # choice counter: a local of the enclosing function, here a by-reference parameter
-    block = block.replace('choice_count += 1;', '*choice_count += 1;')
+    block = re.sub(r'(?<![\w*])choice_count\b', '*choice_count', block)
     fn = ('fn emit(op: &Op, i: u32, lhs_slot: Slot, rhs_slot: Slot, var_index: usize, choice_count: &mut usize) -> (r: SsaOp)\n{\n    '
           + block.strip().replace('let op = match op {', 'let op_ = match op {', 1) + ';\n    op_\n}')
     fn = fn.replace('Op::Binary(op, lhs, rhs) =>', 'Op::Binary(op, _lhs, _rhs) =>').replace('Op::Unary(op, lhs) =>', 'Op::Unary(op, _lhs) =>')
